@@ -402,7 +402,7 @@ pub fn run(tier: Tier, seed: u64, known: &Known) -> PropRun {
     let share = |it: &crate::grid::GridItem| -> u64 {
         match it.fam {
             2 => 1,
-            4 => u64::MAX,
+            4 | 6 | 7 => u64::MAX,
             3 => tier.pick(3, 1),
             _ => tier.pick(10, 1),
         }
